@@ -204,7 +204,12 @@ func HavingExpr(rng *rand.Rand, kinds map[string]string, depth int, mismatch boo
 		case 0:
 			return &bq.HExpr{Kind: "not", L: HavingExpr(rng, kinds, depth-1, mismatch)}
 		case 1:
-			return &bq.HExpr{Kind: "paren", L: HavingExpr(rng, kinds, depth-1, mismatch)}
+			// (the expression builder does not accept directly nested parentheses)
+			in := HavingExpr(rng, kinds, depth-1, mismatch)
+			if in.Kind == "paren" {
+				return in
+			}
+			return &bq.HExpr{Kind: "paren", L: in}
 		case 2:
 			return &bq.HExpr{Kind: "and", L: HavingExpr(rng, kinds, depth-1, mismatch), R: HavingExpr(rng, kinds, depth-1, mismatch)}
 		default:
